@@ -99,50 +99,54 @@ func WasUnmapped(b []byte) bool {
 	return x != nil && len(b) > 0 && x.unmapped[&b[0]]
 }
 
-type vListener struct {
-	net.Listener
+type lstState struct {
 	f      *os.File
+	fd     int
 	closed bool
 }
 
-// NetListen wraps net.Listen so that Accept is a blocking scheduling point instead of a native block.
-func NetListen(network, address string) (net.Listener, error) {
-	l, err := net.Listen(network, address)
-	if err != nil || X == nil {
-		return l, err
+var listeners = map[net.Listener]*lstState{}
+
+func lstOf(l net.Listener) *lstState {
+	st := listeners[l]
+	if st == nil {
+		st = &lstState{}
+		type filer interface{ File() (*os.File, error) }
+		if fl, ok := l.(filer); ok {
+			if f, err := fl.File(); err == nil {
+				st.f = f
+				st.fd = int(f.Fd())
+				if X != nil {
+					// closed through the objects (never only by descriptor number: see TrackFile)
+					X.cleanup = append(X.cleanup, func() { f.Close(); l.Close(); delete(listeners, l) })
+				}
+			}
+		}
+		listeners[l] = st
 	}
-	return WrapListener(l), nil
+	return st
 }
 
-// WrapListener makes Accept scheduler-aware.
-func WrapListener(l net.Listener) net.Listener {
-	type filer interface{ File() (*os.File, error) }
-	fl, ok := l.(filer)
-	if !ok {
-		return l
+// Accept replaces l.Accept() for a net.Listener in the code under test: it parks the thread until a connection is
+// pending or the listener was closed, then calls the real Accept, which cannot block any more.
+func Accept(l net.Listener) (net.Conn, error) {
+	x := X
+	if x != nil && !x.aborting {
+		st := lstOf(l)
+		if st.f != nil {
+			fd := st.fd
+			x.point("accept", func() bool { return st.closed || FdReadable(fd) })
+		}
 	}
-	f, err := fl.File()
-	if err != nil {
-		return l
-	}
-	return &vListener{Listener: l, f: f}
+	return l.Accept()
 }
 
-func (l *vListener) Accept() (net.Conn, error) {
-	if X != nil && !X.aborting {
-		fd := int(l.f.Fd())
-		X.point("accept", func() bool { return l.closed || FdReadable(fd) })
+// CloseListener replaces l.Close() for a net.Listener in the code under test.
+func CloseListener(l net.Listener) error {
+	if X != nil {
+		lstOf(l).closed = true
 	}
-	if l.closed {
-		return nil, net.ErrClosed
-	}
-	return l.Listener.Accept()
-}
-
-func (l *vListener) Close() error {
-	l.closed = true
-	l.f.Close()
-	return l.Listener.Close()
+	return l.Close()
 }
 
 // TrackFile remembers an *os.File created by the code under test so that the harness can close it when the
